@@ -41,6 +41,8 @@ VARIANTS = [
     ("info --task", ["info", "--task"]),
     ("dump --flame-graph", ["dump", "--flame-graph"]),
     ("replay --srcline", ["replay", "--srcline"]),
+    ("report --srcline", ["report", "--srcline"]),
+    ("graph --srcline", ["graph", "--srcline"]),
     ("dump --graphviz", ["dump", "--graphviz"]),
     ("replay --no-merge", ["replay", "--no-merge"]),
     ("report -s self,call", ["report", "-s", "self,call"]),
@@ -65,6 +67,7 @@ FILTERS = [
 ]
 # the second directory of `report --diff` is the damaged one (the first is intact)
 DIFF_DAMAGED = ("report --diff <damaged>", ["report", "--diff", "b"])
+SRCLINE = ["replay --srcline", "report --srcline", "graph --srcline"]      # the consumers of the .dbg location table
 CMDS = [c for c, _ in PLAIN]
 ARGV = dict(PLAIN + VARIANTS + FILTERS + [DIFF_DAMAGED])
 
@@ -815,7 +818,7 @@ def e2e(ctx, objdir):
         # ---- jobs: (file, mode, n): mode "cut" (first n bytes), "missing", "drop" (line n removed, the rest kept)
         jobs = []
         for fname, content in files.items():
-            if ctx.thorough() and len(content) <= 2000:
+            if (ctx.thorough() and len(content) <= 2000) or fname.endswith(".dbg"):
                 cuts = list(range(len(content) + 1))
             elif fname == "100.dat":
                 # quick: every record / header / argument-piece boundary +-2, at least two cuts inside every piece (so
@@ -830,8 +833,8 @@ def e2e(ctx, objdir):
                         lo = b
                 cuts = sorted(cs)
             elif fname.startswith("perf-cpu"):
-                # quick: every event boundary and header end +-1, every 4th byte
-                cs, off = {0, len(content)} | set(range(0, len(content) + 1, 4)), 0
+                # quick: every event boundary and header end +-1, every 8th byte
+                cs, off = {0, len(content)} | set(range(0, len(content) + 1, 8)), 0
                 while off + 8 <= len(content):
                     size = struct.unpack_from("<H", content, off + 6)[0]
                     cs |= {x for b in (off, off + 8, off + size) for x in (b - 1, b, b + 1) if 0 <= x <= len(content)}
@@ -859,6 +862,11 @@ def e2e(ctx, objdir):
                 # whole-line damage stated explicitly: every single line dropped (SESS / TASK / FORK lines of task.txt,
                 # every `key:value` line of info), the other lines kept
                 jobs += [(fname, "drop", i) for i in range(len(text_lines(content, fname)[1]))]
+            if fname in ("task.txt", "info") or fname.endswith(".dbg"):
+                # a line reduced to its first 1..3 bytes, newline kept (n = 4 * line + bytes): the malformed-line paths of
+                # the line parsers, which a prefix cut no longer reaches where an unterminated last line is ignored
+                jobs += [(fname, "stub", 4 * i + k) for i in range(len(text_lines(content, fname)[1]))
+                         for k in ((1, 2, 3) if ctx.thorough() else (1 + i % 2, 3))]
 
         def with_variants(job):
             """quick tier: the option variants run on the whole-line and whole-record damage, on everything next to it,
@@ -893,6 +901,10 @@ def e2e(ctx, objdir):
             elif mode == "drop":
                 pre, ls = text_lines(files[fname], fname)
                 fs[fname] = pre + b"".join(ls[:n] + ls[n + 1:])
+            elif mode == "stub":
+                pre, ls = text_lines(files[fname], fname)
+                i, k = divmod(n, 4)
+                fs[fname] = pre + b"".join(ls[:i] + [ls[i][:k].rstrip(b"\n") + b"\n"] + ls[i + 1:])
             else:
                 fs[fname] = files[fname][:n]
             return fs
@@ -911,6 +923,13 @@ def e2e(ctx, objdir):
             if (not ctx.thorough() and not wv and job[1] == "cut" and job[0] not in ("info", "task.txt", "default.opts")
                     and not is_task(job[0])):
                 cmds = [c for c in cmds if c != "info"]     # quick: `uftrace info` opens info, task.txt and the task files only
+            if job[1] == "stub" and not ctx.thorough():
+                # quick: the malformed-line paths are exercised by the plain commands and the per-task / info consumers
+                cmds = CMDS + ["info --task", "report --task", "dump --flame-graph"]
+            if job[0].endswith(".dbg"):
+                if job[1] == "cut" and not wv and not ctx.thorough():
+                    cmds = ["replay", "report"]                          # quick, mid-line cuts of a .dbg: its consumers only
+                cmds = cmds + [c for c in SRCLINE if c not in cmds]      # the location table: on every damage of a .dbg
             if job[0] == "info" and "dump --flame-graph" not in cmds:
                 cmds = cmds + ["dump --flame-graph"]      # reads info.elapsed_time: on every cut of info
             jd = os.path.join(root, "j-%s-%s-%d" % (job[0].replace("/", "_"), job[1], job[2]))
@@ -937,7 +956,7 @@ def e2e(ctx, objdir):
             fs = dict(files)
             fs[fname] = files[fname][:n] + (b"\n" if nl else b"")
             return key, run_cmds(uft, os.path.join(root, "t-%s-%d-%d" % (fname.replace("/", "_"), n, nl)), fs,
-                                 allcmds if fname == "task.txt" else None)
+                                 allcmds if fname == "task.txt" else CMDS + SRCLINE if fname.endswith(".dbg") else None)
 
         ctx.log("e2e: %d jobs, %d whole-record copies, %d complete-line copies" % (len(jobs), len(canon_needed), len(text_canon_needed)))
         with ThreadPoolExecutor(16) as ex:
@@ -961,9 +980,12 @@ def e2e(ctx, objdir):
                 continue
             kind = "dat" if is_task(fname) else "perf" if fname.startswith("perf-cpu") else "sym" if fname.endswith(".sym") else "map" if fname.endswith(".map") else fname
             tags = ["e2e:file=" + kind]
-            how = {"cut": "cut at byte %d" % n, "missing": "missing", "drop": "without its line %d" % (n + 1)}[mode]
+            how = {"cut": "cut at byte %d" % n, "missing": "missing", "drop": "without its line %d" % (n + 1),
+                   "stub": "with its line %d reduced to its first %d byte(s)" % (n // 4 + 1, n % 4)}[mode]
             if mode == "missing":
                 tags.append("e2e:file-missing")
+            elif mode == "stub":
+                tags.append("e2e:line-stub:" + kind)
             elif mode == "drop":
                 pre, ls = text_lines(files[fname], fname)
                 tags.append("e2e:line-dropped:" + (ls[n][:4].decode(errors="replace") if fname == "task.txt" else
@@ -1022,16 +1044,16 @@ def e2e(ctx, objdir):
                         viol(ctx, "e2e-output:" + c, "uftrace %s on a task file (%s) cut at byte %d neither prints what it prints on the "
                              "copy cut at the last whole record (byte %d) nor stops with a diagnostic and a prefix of that output"
                              % (c, fname, n, wl), rep)
-                elif (c in CMDS or fname == "task.txt") and unterminated(fname, n):
+                elif (c in CMDS or fname == "task.txt" or (fname.endswith(".dbg") and c in SRCLINE)) and unterminated(fname, n):
                     k = line_start(fname, n)
                     ref = tcanon[(fname, k, 0)][c]
-                    if fname == "task.txt":
-                        # the task list reader skips an unterminated last line (C12_task_txt_prefix): exactly the copy
+                    if fname == "task.txt" or fname.endswith(".dbg"):
+                        # these readers skip an unterminated last line (C12_task_txt_prefix; .dbg alike): exactly the copy
                         if (rc, out) != (ref[0], ref[1]):
                             rep["expected_stdout"] = ref[1][-600:]
                             rep["expected_rc"] = ref[0]
-                            viol(ctx, "e2e-tasktxt", "uftrace %s with task.txt cut at byte %d (inside a line) does not print what it "
-                                 "prints on the copy cut at the last complete line (byte %d)" % (c, n, k), rep)
+                            viol(ctx, "e2e-strict:" + kind, "uftrace %s with %s cut at byte %d (inside a line) does not print what it "
+                                 "prints on the copy cut at the last complete line (byte %d)" % (c, fname, n, k), rep)
                     elif rc != 0 and err.strip():
                         ctx.tag("e2e:text-rest-rejected")            # diagnostic
                     elif (rc, out) == (ref[0], ref[1]):
@@ -1154,6 +1176,10 @@ def replay(ctx, obj):
         elif damage == "drop":
             pre, ls = text_lines(files[fname], fname)
             files[fname] = pre + b"".join(ls[:n] + ls[n + 1:])
+        elif damage == "stub":
+            pre, ls = text_lines(files[fname], fname)
+            i, k = divmod(n, 4)
+            files[fname] = pre + b"".join(ls[:i] + [ls[i][:k].rstrip(b"\n") + b"\n"] + ls[i + 1:])
         else:
             files[fname] = files[fname][:n]
         res = run_cmds(os.path.join(objdir, "uftrace"), os.path.join(ctx.scratch, "r", "job"), files, [obj["command"]])
